@@ -309,8 +309,9 @@ def gap_is_optional(lex, k):
     return True
 
 
-def canonical_text(state):
-    """The sequence of logical lines of a state in the tightest layout: comment and blank lines dropped, the parts of a
+def canonical_text(state, spaced=False):
+    """spaced=True: the same logical lines with exactly one blank at every gap (also at the optional-blank positions).
+    Default - the sequence of logical lines of a state in the tightest layout: comment and blank lines dropped, the parts of a
     continued line joined, every optional whitespace run removed (gap_is_optional), every other run kept as written (one space
     at a join), no indentation, no trailing whitespace, LF between lines, one str. This is the reference text: the property
     says the model depends on nothing else."""
@@ -326,7 +327,7 @@ def canonical_text(state):
         if not ln[5]:
             parts = [lex[0]]
             for k in range(len(lex) - 1):
-                parts.append('' if gap_is_optional(lex, k) else (gaps[k] or ' '))
+                parts.append(' ' if spaced else '' if gap_is_optional(lex, k) else (gaps[k] or ' '))
                 parts.append(lex[k + 1])
             out.append(''.join(parts))
             lex, gaps = [], []
@@ -339,7 +340,7 @@ def canonical_text(state):
 
 OPT_BLANKS = [' ', '\t']       # what is inserted at an optional-blank position
 EMPTY_GAP_BREAKS = (2, 4)       # break styles used at an optional-blank position: tight, blank only after
-INDENTS = ['', '  ', '\t']
+INDENTS = ['', ' ', '  ', '   ', '\t']     # 1, 2, 3 blanks and a tab: column shifts that are not multiples of a tab width
 TRAILS = ['  ', '\t']
 INSERTS = [('', ''), ('', '# comment'), ('    ', '# comment'), ('', '# tail \\')]
 CONT_INDENT = '    '
@@ -911,6 +912,32 @@ s·=·'a\rb'
 t·=·'\r'
 include·<d\rir/x.bare>
 ''', eol='\r\n'),
+]
+
+# literals whose content a layout change must never touch: a real tab, several blanks, a trailing blank, '#', a backslash at the
+# end - in assignments, call arguments and conditions, behind wide gaps (a break narrows them) and on continuation lines
+HAND += [
+    _p('tab-literals', '''
+s·=·'a\tb'
+ff(··'x\ty'·,→"\t"·)
+if·s·==·'p\t\tq'·:
+···t·=·'in\tdent'
+endif
+'''),
+    _p('blank-literals', '''
+s·=·'a   b '
+u·=·' # '·+·'end\\\\'
+while·ff(·'  '·,··"q \t"·)·:
+→break
+endwhile
+'''),
+    _p('tab-literal-continued', '''
+msg·=·'one\ttwo'·+·\\
+·'three\t'·+·\\
+→'\tfour  '
+return·gg(·msg·,·\\
+···"\t#\t"·)
+'''),
 ]
 
 # generator-built: every statement wrapper x every expression template
